@@ -217,6 +217,9 @@ def run(chk, w):
             chk.violation("C15-CONN", f.name, c.callee, c.loc(), "%s is sent to a board's stored address without a dominating test of that board's connected flag" % c.callee)
     chk.floor("board_addressed_sends", nconn, 15)
 
+    # ---- DESCEND
+    descend_rule(chk, P, "C15-DESCEND")
+
     # ---- RESTART
     chk.rule("C15-RESTART", "when enumeration must restart, the pending sub-interface list is emptied before the root is queried again")
     pollers = {n for n in new_roles if any(c.callee and rules.call_reaches(P, c, {"g_queue_pop_head"}) for c in P.functions[n].calls())}
@@ -254,6 +257,50 @@ def run(chk, w):
             chk.ok("C15-RESTART", 1, {"query": n, "can_request_restart": True})
         else:
             chk.violation("C15-RESTART", n, "restart-signal", "%s:%d" % (f.relfile, f.line), "the node-table query never reports that the table changed")
+
+
+def descend_rule(chk, P, rid):
+    """DESCEND: in the node-table query, an interface row is queued for enumeration whether or not a board is configured for it: the enqueue is not
+    control dependent on the result of the configured-board lookup (configured boards behind an unconfigured interface are still found)."""
+    chk.rule(rid, "the node-table query queues every interface row for enumeration, also when no board is configured for that row (the enqueue does not depend on the board lookup)")
+    n = 0
+    for f in P.repo_functions():
+        if not f.blocks or not f.relfile.startswith("src/state/"):
+            continue
+        pushes = [c for c in f.calls() if c.callee in ("g_queue_push_tail", "g_queue_push_head")]
+        lookups = [c for c in f.calls() if c.callee in P.functions and P.functions[c.callee].ret.endswith("*") and "board" in (P.functions[c.callee].ret or "")]
+        reads = [c for c in f.calls() if c.callee == "bidib_read_intern_message" or (c.callee in P.functions and rules.call_reaches(P, c, {"bidib_read_intern_message"}))]
+        if not pushes or not lookups or not reads:
+            continue
+        for pc in pushes:
+            n += 1
+            dep = None
+            for (gd, truth) in list(rules.conditions_at(f, pc)) + rules.control_conditions(f, pc):
+                cnd = f.resolve(gd["cond"])
+                stack = [cnd]
+                seen = set()
+                while stack:
+                    x = stack.pop()
+                    if x is None or x.id in seen:
+                        continue
+                    seen.add(x.id)
+                    if x.op == "icmp" and x["b"].get("k") == "null":
+                        v = f.resolve(rules.resolve_local(f, rules.strip_casts(f, x["a"])))
+                        if v is not None and any(v.id == lk.id for lk in lookups):
+                            dep = (x, v)
+                    if x.op == "phi":
+                        for (_, vv) in x["incoming"]:
+                            if vv.get("k") == "inst":
+                                stack.append(f.insts[vv["id"]])
+                    for k_ in ("a", "b"):
+                        if k_ in x.d and isinstance(x[k_], dict) and x[k_].get("k") == "inst":
+                            stack.append(f.insts[x[k_]["id"]])
+            if dep:
+                chk.violation(rid, f.name, "enqueue-behind-lookup", pc.loc(), "the interface row is queued for enumeration only when %s (line %d) found a configured board: the nodes behind an "
+                              "unconfigured interface are never enumerated and stay disconnected" % (dep[1].callee, dep[1].line))
+            else:
+                chk.ok(rid, 1, {"function": f.name, "enqueue": pc.loc()})
+    chk.floor(rid.lower().replace("-", "_") + "_enqueues", n, 1)
 
 
 def board_addressed_sends(P, S, fns=None):
